@@ -39,7 +39,9 @@ RULE = (
     "reads or writes; lifted read/write sets) or start/end at a common instant. Problems get (profile amount_fluents) an action "
     "that increases/decreases a fluent by a non-static fluent amount and a writer of that amount; every valid plan with >= 2 steps "
     "is observed a second time for the problem whose goals additionally pin the plan's outcome (final values of the changed "
-    "ground fluents), counted as a separate evaluation."
+    "ground fluents), counted as a separate evaluation. Thorough tier, shard 0: additionally every labelled valid plan of the "
+    "repository's example problems (time-triggered plans as they are, sequential plans as time-triggered plans with one step per "
+    "time unit; 68 plans on the pinned tree) that the reference judges VALID is observed in the same way (counter examples_observed)."
 )
 ASSUMPTIONS = [
     "validity before and after the round trip is decided by vk/ref/ttsem.py (bounds and invariants included)",
@@ -63,11 +65,62 @@ def run_shard(spec, res):
             run_case(key, spec["tier"], b, res)
         except Unsupported:
             res.count("skipped_unsupported_by_oracle")
+    if spec["tier"] == "thorough" and spec["shard"] == 0:
+        res.count("tier:thorough")
+        run_examples(spec["tier"], res)
 
 
 def replay(witness, res):
     tier = witness.get("tier", "quick")
+    if witness.get("example"):
+        run_examples(tier, res, only=(witness["example"], witness.get("k")))
+        return
     run_case(witness["case_key"], tier, BOUNDS[tier], res)
+
+
+def run_examples(tier, res, only=None):
+    """The labelled valid plans of the repository's example problems (time-triggered ones as they are, sequential ones as
+    time-triggered plans with one instantaneous step per time unit): realistic plans next to the generated ones."""
+    from unified_planning.model import Problem
+    from unified_planning.plans import SequentialPlan, TimeTriggeredPlan
+    from unified_planning.test.examples import get_example_problems
+    from vk.ref.evalx import const_value
+
+    for name, ex in sorted(get_example_problems().items()):
+        if only and name != only[0]:
+            continue
+        pb = ex.problem
+        if type(pb) is not Problem or pb.kind.has_simulated_effects():
+            continue
+        for k, pl in enumerate(ex.valid_plans):
+            if only and only[1] is not None and k != only[1]:
+                continue
+            try:
+                if isinstance(pl, TimeTriggeredPlan):
+                    steps = ttsem.steps_of_plan(pl)
+                elif isinstance(pl, SequentialPlan):
+                    steps = [(Fraction(i), ai.action, tuple(const_value(p) for p in ai.actual_parameters), None) for i, ai in enumerate(pl.actions)]
+                else:
+                    continue
+                if not steps or len(steps) > 40:
+                    res.count("examples_skipped_empty_or_long")
+                    continue
+                v0 = ttsem.validate(pb, steps)
+            except Unsupported:
+                res.count("examples_skipped_unsupported_by_oracle")
+                continue
+            except Exception as e:  # the oracle could not digest the corpus problem: not judged
+                res.count("examples_skipped_oracle_error:" + type(e).__name__)
+                continue
+            if v0.status != ttsem.VALID:
+                res.count("examples_skipped_not_valid_under_reference")
+                continue
+            res.count("examples_observed")
+            res.count("examples_observed:" + ("temporal" if isinstance(pl, TimeTriggeredPlan) else "sequential-as-time-triggered"))
+            try:
+                observe(pb, steps, v0, {"example": name, "k": k, "tier": tier}, res, "ex:" + name)
+            except Unsupported:
+                res.count("examples_skipped_unsupported_by_oracle")
 
 
 # ---- workload ---------------------------------------------------------------------------------------
@@ -450,4 +503,6 @@ def thresholds(m):
             out.append(f"fewer than 10 observations of {k} ({c.get(k, 0)})")
     if c.get("feature:timed-effect", 0) + c.get("feature:timed-goal", 0) < 10:
         out.append("fewer than 10 valid plans of problems with timed effects / goals")
+    if c.get("tier:thorough") and c.get("examples_observed", 0) < 10:
+        out.append(f"fewer than 10 example-corpus plans observed ({c.get('examples_observed', 0)})")
     return out
